@@ -6,8 +6,11 @@ import (
 	"errors"
 	"fmt"
 	"io"
+	"net/http"
 	"net/url"
 	"sort"
+	"sync"
+	"sync/atomic"
 	"testing"
 	"testing/synctest"
 	"time"
@@ -42,6 +45,7 @@ type c20Getter struct {
 	runaway    bool
 	retryAfter int  // seconds named in the Retry-After header of failure kind 6
 	latFirst   bool // only the first attempt is slow (a connection that times out once), later ones answer at once
+	viaHTTP    bool // the script is reached through the real SimpleHTTPSGetter on a simulated HTTP transport
 }
 
 type c20NetTimeout struct{}
@@ -131,15 +135,74 @@ type c20Result struct {
 	panicV  string
 }
 
+// c20Transport is a simulated HTTP transport (installed once as http.DefaultTransport): no sockets, the
+// response comes from the scripted getter registered for the request's host.  It lets the REAL
+// trust.SimpleHTTPSGetter (http.Get, status handling, header and body reading) sit between the retry loop
+// and the script, inside the fake-clock bubble.
+type c20Transport struct {
+	mu    sync.Mutex
+	hosts map[string]*c20Getter
+	next  http.RoundTripper
+}
+
+var (
+	c20Net     = &c20Transport{hosts: map[string]*c20Getter{}}
+	c20NetOnce sync.Once
+	c20HostSeq atomic.Uint64
+)
+
+func (tr *c20Transport) RoundTrip(req *http.Request) (*http.Response, error) {
+	tr.mu.Lock()
+	g := tr.hosts[req.URL.Host]
+	tr.mu.Unlock()
+	if g == nil {
+		return nil, fmt.Errorf("dial tcp: lookup %s: no such host (sealed sandbox)", req.URL.Host)
+	}
+	idx := len(g.attempts)
+	h, b, err := g.Get(req.URL.String())
+	mk := func(code int, hdr map[string][]string, body []byte) *http.Response {
+		return &http.Response{StatusCode: code, Status: fmt.Sprintf("%d %s", code, http.StatusText(code)), Proto: "HTTP/1.1", ProtoMajor: 1, ProtoMinor: 1,
+			Header: http.Header(hdr), Body: io.NopCloser(bytes.NewReader(body)), ContentLength: int64(len(body)), Request: req}
+	}
+	if err == nil {
+		return mk(200, h, b), nil
+	}
+	// a failed attempt: an HTTP status (throttling, client or server error) or a transport error
+	code := []int{429, 503, 0, 408, 404, 500, 425, 301, 403}[(g.errKind+idx*btoi(g.errMixed))%9]
+	if code == 0 {
+		return nil, err
+	}
+	return mk(code, map[string][]string{"Retry-After": {fmt.Sprint(g.retryAfter)}}, []byte("no")), nil
+}
+
+func btoi(b bool) int {
+	if b {
+		return 1
+	}
+	return 0
+}
+
 // c20Bubble runs one Get in a bubble.  rg, if non-nil, is a long-lived retrying getter that
 // already served earlier calls (its wrapped getter is re-pointed at g for this call).
 func c20Bubble(tb *testing.T, timeout, maxDelay time.Duration, g *c20Getter, shared ...*trust.RetryHTTPSGetter) (res c20Result) {
 	synctest.Test(tb, func(t *testing.T) {
 		g.t0 = time.Now()
-		rg := &trust.RetryHTTPSGetter{Timeout: timeout, MaxRetryDelay: maxDelay, Getter: g}
+		var wrapped trust.HTTPSGetter = g
+		if g.viaHTTP {
+			// the default combination: the retry loop over the real SimpleHTTPSGetter, on the simulated transport
+			c20NetOnce.Do(func() { c20Net.next = http.DefaultTransport; http.DefaultTransport = c20Net })
+			host := fmt.Sprintf("sim%d.pcs.example", c20HostSeq.Add(1))
+			c20Net.mu.Lock()
+			c20Net.hosts[host] = g
+			c20Net.mu.Unlock()
+			defer func() { c20Net.mu.Lock(); delete(c20Net.hosts, host); c20Net.mu.Unlock() }()
+			g.url = "https://" + host + "/tcb"
+			wrapped = &trust.SimpleHTTPSGetter{}
+		}
+		rg := &trust.RetryHTTPSGetter{Timeout: timeout, MaxRetryDelay: maxDelay, Getter: wrapped}
 		if len(shared) == 1 && shared[0] != nil {
 			rg = shared[0]
-			rg.Getter = g
+			rg.Getter = wrapped
 		}
 		func() {
 			defer func() {
@@ -229,6 +292,10 @@ func c20Run(r *core.Run) {
 		r.Probe("successful_response_with_empty_body")
 	}
 	errKind, errMixed := r.T.Draw(7), r.T.Chance(1, 3)
+	viaHTTP := r.T.Chance(1, 3)
+	if viaHTTP {
+		r.Probe("through_the_real_simple_getter_on_a_simulated_transport")
+	}
 	retryAfter := []int{7200, int(3*maxDelay/time.Second) + 1}[r.T.Draw(2)]
 	latFirst := lat > 0 && r.T.Chance(1, 3)
 	if latFirst {
@@ -270,7 +337,7 @@ func c20Run(r *core.Run) {
 			}
 			// keep the enumeration shape identical under Focus: we need to know when to stop,
 			// which depends on outcomes, so execute silently without judging.
-			g := &c20Getter{failFirst: ff, latency: lat, hdr: hdr, body: body, url: url, errKind: errKind, errMixed: errMixed, latFirst: latFirst, retryAfter: retryAfter, horizon: 4*bound + time.Hour}
+			g := &c20Getter{failFirst: ff, latency: lat, hdr: hdr, body: body, url: url, errKind: errKind, errMixed: errMixed, latFirst: latFirst, retryAfter: retryAfter, horizon: 4*bound + time.Hour, viaHTTP: viaHTTP}
 			res := c20Bubble(r.TB, timeout, maxDelay, g, long)
 			if res.aborted || res.runaway || res.err != nil {
 				gaveUp++
@@ -282,7 +349,7 @@ func c20Run(r *core.Run) {
 		if emptyBody {
 			body = []byte{} // a successful response may have an empty body: it is a success all the same
 		}
-		g := &c20Getter{failFirst: ff, latency: lat, hdr: hdr, body: body, url: url, errKind: errKind, errMixed: errMixed, latFirst: latFirst, retryAfter: retryAfter, horizon: 4*bound + time.Hour}
+		g := &c20Getter{failFirst: ff, latency: lat, hdr: hdr, body: body, url: url, errKind: errKind, errMixed: errMixed, latFirst: latFirst, retryAfter: retryAfter, horizon: 4*bound + time.Hour, viaHTTP: viaHTTP}
 		res := c20Bubble(r.TB, timeout, maxDelay, g, long)
 		r.Eval()
 		r.SimTime += res.elapsed
@@ -367,8 +434,8 @@ func c20Run(r *core.Run) {
 			}
 		}
 		for _, u := range g.urls {
-			if u != url {
-				r.Violate("C20:url-changed", "%s: wrapped getter was asked for %q instead of %q", name, u, url)
+			if u != g.url {
+				r.Violate("C20:url-changed", "%s: wrapped getter was asked for %q instead of %q", name, u, g.url)
 				break
 			}
 		}
